@@ -2,6 +2,7 @@ package props
 
 import (
 	"fmt"
+	verifclock "github.com/ucan-wg/go-ucan/verifshim/clock"
 	"os"
 	"time"
 
@@ -49,6 +50,8 @@ func c04Probes() []time.Time {
 		}
 	}
 	ps = append(ps, c04T0.AddDate(100, 0, 0))
+	// special values of time.Time: the zero value (year 1), the same instant as a Unix time, the Unix epoch
+	ps = append(ps, time.Time{}, time.Unix(-62135596800, 0), time.Unix(0, 0), time.Unix(0, 1))
 	// the same instants expressed in two other time zones: validity is a property of the instant
 	n := len(ps)
 	for _, z := range []*time.Location{time.FixedZone("east", 14*3600), time.FixedZone("west", -12*3600+1800)} {
@@ -227,9 +230,9 @@ func c04SingleSub(dir string) *engine.Sub {
 	return &engine.Sub{
 		Name:   "single-token-window",
 		Repeat: true,
-		Rule:   "IsValidAt of every delegation window (9) and invocation expiry (3), constructed and after seal->unseal, at 34 probe instants, each expressed in UTC and in two other time zones (+14h, -11h30); strictly inside => valid, strictly outside => invalid, on a bound don't care; non-trivial = at least one bound present",
+		Rule:   "IsValidAt of every delegation window (9) and invocation expiry (3), constructed and after seal->unseal, at 38 probe instants (the zero time.Time and the Unix epoch among them; the library's clock stands inside the window meanwhile, E7), each expressed in UTC and in two other time zones (+14h, -11h30); strictly inside => valid, strictly outside => invalid, on a bound don't care; non-trivial = at least one bound present",
 		Bound: func(string) string {
-			return "9+3 windows x {constructed, sealed+unsealed} x 102 probes (34 instants x 3 zones)"
+			return "9+3 windows x {constructed, sealed+unsealed} x 114 probes (38 instants x 3 zones)"
 		},
 		Setup: func(string) error { chainInit(); return nil },
 		Gen: func(tier string, emit func(any) bool) {
@@ -296,6 +299,11 @@ func c04SingleSub(dir string) *engine.Sub {
 			if nbf != 0 || exp != 0 {
 				ctx.Nontrivial(1)
 			}
+			// E7: while the probes are asked the library's clock stands INSIDE every window (T0 + 3500 s: after both
+			// not-before bounds, before the last expiration) - an instant handed to IsValidAt is the instant that is judged,
+			// whatever the clock says, also when it is the zero time.Time or the Unix epoch
+			restoreClock := verifclock.InstallLocal(func() time.Time { return c04T0.Add(3500 * time.Second) })
+			defer restoreClock()
 			// probes are asked in ascending order, then again in descending order on the same token:
 			// the answer for an instant must not depend on which instants were asked before
 			first := map[int]bool{}
